@@ -5,7 +5,7 @@ namespace sim {
 
 static const char *OP_NAMES[OP_NKINDS] = {"create",     "destroy",       "setter",          "set_chunk_size", "set_offset",
                                           "set_debug",  "assemble_str",  "count_str",       "assemble_file",  "count_file",
-                                          "create_bin_file", "exec",     "launch",          "sabotage"};
+                                          "create_bin_file", "exec",     "launch",          "refill_buffer",  "sabotage"};
 const char *op_name(int k) { return (k >= 0 && k < OP_NKINDS) ? OP_NAMES[k] : "?"; }
 static int op_from_name(const std::string &s) {
   for (int i = 0; i < OP_NKINDS; i++)
@@ -82,6 +82,7 @@ static Json op_to_json(const Op &op) {
       else
         o.set("value", op.value);
       break;
+    case OP_REFILL: o.set("fill", op.fill); break;
     case OP_SABOTAGE:
       o.set("sin", op.which);
       o.set("k", op.k);
@@ -148,6 +149,7 @@ static bool op_from_json(const Json &o, Op &op, std::string *err) {
       op.value = (int)v->n;
   }
   if (op.kind == OP_SABOTAGE) op.which = (int)o.num("sin");
+  if (op.kind == OP_REFILL) op.fill = (int)o.num("fill", 0xCC);
   op.c = o.num("c");
   op.k = o.num("k");
   op.on = o.boolean("on");
